@@ -43,6 +43,7 @@ func main() {
 	pkgVars := map[string]string{}   // package-level var -> file
 	varWrites := []string{}
 	mapDecls := map[string]bool{}
+	scalarInts := map[string]int64{}  // value of the scalar package-level variables initialised by an integer literal
 	pkgScalars := map[string]bool{}   // package-level vars of a basic value type (only an assignment, ++/-- or & can change them)
 	keeperFields := map[string]bool{} // fields of the keeper structs that are not of a basic value type
 	basic := map[string]bool{"string": true, "bool": true, "int": true, "int8": true, "int16": true, "int32": true, "int64": true,
@@ -82,6 +83,13 @@ func main() {
 							}
 							if scalar {
 								pkgScalars[nm.Name] = true
+								if i < len(vs.Values) {
+									if bl, ok := vs.Values[i].(*ast.BasicLit); ok && bl.Kind == token.INT {
+										if n, err := strconv.ParseInt(bl.Value, 0, 64); err == nil {
+											scalarInts[nm.Name] = n
+										}
+									}
+								}
 							}
 						}
 					}
@@ -490,4 +498,12 @@ func main() {
 	w("Scan.v", sb.String())
 	// CodecGo.v: the four codec functions translated into the representation of Gen/CodecIR.v
 	w("CodecGo.v", translateCodecs(*repo, ints))
+	// HandlersGo.v: the administrative handlers translated into monadic Gallina, each with its equality proof
+	for _, wr := range varWrites {
+		parts := strings.Split(wr, ":")
+		delete(scalarInts, strings.Trim(parts[len(parts)-1], "&[]"))
+	}
+	for name, body := range safeTranslateHandlers(*repo, ints, scalarInts) {
+		w(name, body)
+	}
 }
